@@ -55,6 +55,8 @@ def check_links(roots, reg: Registry | None = None) -> list[tuple[str, str]]:
             outs = p.outputs
             if k is None or not (0 <= k < len(outs)) or outs[k] is not v:
                 out.append(("producer_without_output", f"{tok(v)} names producer {tok(p)}[{k}] which does not hold it"))
+        elif v.index() is not None:
+            out.append(("index_without_producer", f"{tok(v)} has no producer but reports index {v.index()}"))
 
     # 3. node.graph <=> membership exactly once; sequence protocol agreement
     for g in graphs:
